@@ -29,6 +29,10 @@ type Subject struct {
 type Case struct {
 	Subjects []Subject     `json:"subjects"`
 	Ops      []*esmodel.Op `json:"ops"`
+
+	// generation only: a focused case draws its keys from a pool of 2-3 and prefers the subjects as receivers, so that
+	// operations collide on the same property (define non-writable, then Reflect.set through another receiver, ...)
+	focus []string
 }
 
 var modelledKinds = []string{"plain", "plainp", "nullproto", "func", "strictfunc", "arrow", "bound", "class", "method", "genfunc", "asyncfunc",
@@ -53,9 +57,17 @@ var keyPool = []string{`s:"a"`, `s:"b"`, `s:"length"`, `s:"0"`, `s:"1"`, `s:"2"`
 
 var primVals = []string{"u", "null", "b:true", "b:false", "d:0", "d:-0", "d:1", "d:2", "d:5", "d:NaN", `s:""`, `s:"v"`, `s:"7"`, "y:0"}
 
-func genKey(t *rapid.T) string { return rapid.SampledFrom(keyPool).Draw(t, "key") }
+func genKey(t *rapid.T, c *Case) string {
+	if len(c.focus) > 0 && rapid.IntRange(0, 9).Draw(t, "fkey") > 0 {
+		return rapid.SampledFrom(c.focus).Draw(t, "focuskey")
+	}
+	return rapid.SampledFrom(keyPool).Draw(t, "key")
+}
 
 func genVal(t *rapid.T, c *Case) string {
+	if len(c.focus) > 0 && rapid.IntRange(0, 2).Draw(t, "fval") == 0 {
+		return "o:" + strconv.Itoa(c.Subjects[rapid.IntRange(0, len(c.Subjects)-1).Draw(t, "fvsubj")].Tag)
+	}
 	switch rapid.IntRange(0, 5).Draw(t, "vk") {
 	case 0:
 		return "o:" + strconv.Itoa(c.Subjects[rapid.IntRange(0, len(c.Subjects)-1).Draw(t, "vsubj")].Tag)
@@ -113,14 +125,23 @@ func genDesc(t *rapid.T, c *Case) *esmodel.Desc {
 var opKinds = []string{"define", "define", "define", "define", "get", "get", "set", "set", "set", "delete", "delete", "has", "hasOwn", "gopd", "gopd", "ownKeys", "names", "symbols", "keys",
 	"preventExt", "seal", "freeze", "isExt", "isSealed", "isFrozen", "getProto", "setProto", "setProto", "forin", "assign"}
 
+var focusOpKinds = []string{"define", "define", "define", "set", "set", "set", "set", "get", "delete", "gopd", "setProto", "preventExt", "freeze", "seal", "ownKeys", "has"}
+
 func genOp(t *rapid.T, c *Case) *esmodel.Op {
-	op := &esmodel.Op{Op: rapid.SampledFrom(opKinds).Draw(t, "op")}
+	kinds := opKinds
+	if len(c.focus) > 0 && rapid.IntRange(0, 3).Draw(t, "fop") > 0 {
+		kinds = focusOpKinds
+	}
+	op := &esmodel.Op{Op: rapid.SampledFrom(kinds).Draw(t, "op")}
 	subj := c.Subjects[rapid.IntRange(0, len(c.Subjects)-1).Draw(t, "subj")]
 	op.O = subj.Tag
 	op.Surf = rapid.SampledFrom([]string{"strict", "sloppy", "Object", "Reflect"}).Draw(t, "surf")
+	if len(c.focus) > 0 && (op.Op == "set" || op.Op == "get") && rapid.Bool().Draw(t, "fsurf") {
+		op.Surf = "Reflect"
+	}
 	switch op.Op {
 	case "define":
-		op.K = genKey(t)
+		op.K = genKey(t, c)
 		op.D = genDesc(t, c)
 		if op.Surf == "strict" || op.Surf == "sloppy" {
 			op.Surf = "Object"
@@ -130,14 +151,14 @@ func genOp(t *rapid.T, c *Case) *esmodel.Op {
 			op.D.Value = esmodel.Num(float64(rapid.SampledFrom([]int{0, 1, 2, 3, 4, 5000, 5001}).Draw(t, "len")))
 		}
 	case "get":
-		op.K = genKey(t)
+		op.K = genKey(t, c)
 		if op.Surf == "Reflect" && rapid.Bool().Draw(t, "recv") {
 			op.R = genVal(t, c)
 		} else if op.Surf != "Reflect" {
 			op.Surf = "strict"
 		}
 	case "set":
-		op.K = genKey(t)
+		op.K = genKey(t, c)
 		op.V = genVal(t, c)
 		if op.Surf == "Object" {
 			op.Surf = "strict"
@@ -149,12 +170,12 @@ func genOp(t *rapid.T, c *Case) *esmodel.Op {
 			op.V = "d:" + strconv.Itoa(rapid.SampledFrom([]int{0, 1, 2, 3, 4, 5000, 5001}).Draw(t, "len"))
 		}
 	case "delete":
-		op.K = genKey(t)
+		op.K = genKey(t, c)
 		if op.Surf == "Object" {
 			op.Surf = "strict"
 		}
 	case "has", "hasOwn", "gopd":
-		op.K = genKey(t)
+		op.K = genKey(t, c)
 		if op.Surf != "Reflect" {
 			op.Surf = "Object"
 		}
@@ -191,6 +212,17 @@ func genCase(t *rapid.T) *Case {
 		}
 		used[kind] = true
 		c.Subjects = append(c.Subjects, Subject{Tag: 1 + i, Kind: kind})
+	}
+	if rapid.Bool().Draw(t, "focused") {
+		kinds := [][]string{{"y:0", "y:1"}, {`s:"0"`, `s:"1"`, `s:"2"`}, {`s:"5000"`}, {`s:"a"`, `s:"b"`, `s:"x"`}, {`s:"length"`}}
+		for _, ks := range kinds {
+			if rapid.Bool().Draw(t, "fk") {
+				c.focus = append(c.focus, rapid.SampledFrom(ks).Draw(t, "fkpick"))
+			}
+		}
+		if len(c.focus) == 0 {
+			c.focus = []string{"y:0"}
+		}
 	}
 	nops := rapid.IntRange(1, 40).Draw(t, "nops")
 	for i := 0; i < nops; i++ {
@@ -422,7 +454,7 @@ func judge(c *Case) (f *evid.Failure, executed int, nontrivial bool) {
 }
 
 func TestQuickHistory(t *testing.T) {
-	evid.Check(t, "history", 2400, 8, func(t *rapid.T) {
+	evid.Check(t, "history", 12000, 4, func(t *rapid.T) {
 		c := genCase(t)
 		f, executed, nontrivial := judge(c)
 		b, _ := json.Marshal(c)
